@@ -65,12 +65,13 @@ Section Spec.
     | _ => true
     end.
 
-  (** pairwise distinct by JSON equality *)
-  Fixpoint distinct (l : list json) : bool :=
+  (** pairwise distinct by JSON equality: every element differs from all earlier ones *)
+  Fixpoint distinct_from (seen l : list json) : bool :=
     match l with
     | [] => true
-    | x :: r => negb (existsb (json_eqb x) r) && distinct r
+    | x :: r => negb (existsb (fun y => json_eqb x y) seen) && distinct_from (seen ++ [x]) r
     end.
+  Definition distinct (l : list json) : bool := distinct_from [] l.
 
   Definition a_array_counts (s : schema) (j : json) : bool :=
     match j with
@@ -124,28 +125,131 @@ Section Spec.
   Definition olist {A} (o : option (list A)) : list A := match o with Some l => l | None => [] end.
 
   (** the schema a reference keyword leads to *)
-  Definition scope_lookup (e : env) (C : list loc) (name : str) : option loc :=
-    (* outermost resource of the dynamic scope that declares the dynamic anchor *)
-    (fix go (C : list loc) : option loc :=
+  Definition scope_lookup (e : env) (C : list loc) (name : str) : option (option loc) :=
+    (* outermost resource of the dynamic scope that declares the dynamic anchor;
+       the outer None: the environment does not describe a schema of the scope *)
+    (fix go (C : list loc) : option (option loc) :=
        match C with
-       | [] => None
+       | [] => Some None
        | l :: r =>
            match info_at e l with
            | Some li =>
                match info_at e (ri_base li) with
                | Some bi =>
                    match lookup name (ri_anchors bi) with
-                   | Some (t, true) => Some t
+                   | Some (t, true) => Some (Some t)
                    | _ => go r
                    end
-               | None => go r
+               | None => None
                end
-           | None => go r
+           | None => None
            end
        end) C.
 
   Definition one (ev : efun) (j : json) (l : loc) (o : option schema) : option (list (bool * sigma)) :=
     match o with Some c => eval_all (fun c => ev j l c) [c] | None => Some [] end.
+
+  (** array applicators: prefixItems / items / contains (draft-07: items array / additionalItems) *)
+  Definition spec_arrays (e : env) (ev : efun) (l : loc) (s : schema) (items : list json) : option (bool * list nat) :=
+    let d7 := e_draft7 e in
+
+    let n := length items in
+    let prefix := if d7 then olist (s_itemsArray s) else olist (s_prefixItems s) in
+    let prefix_name := if d7 then lit "items"%lit else lit "prefixItems"%lit in
+    let rest := if d7 then (match s_itemsArray s with
+                            | Some _ => option_map (fun c => (lit "additionalItems"%lit, c)) (s_additionalItems s)
+                            | None => option_map (fun c => (lit "items"%lit, c)) (s_items s)
+                            end)
+                else option_map (fun c => (lit "items"%lit, c)) (s_items s) in
+    let np := Nat.min (length prefix) n in
+    match
+      (* pairwise, until either list ends *)
+      eval_all (fun xc => ev (fst xc) (ch_i l prefix_name (fst (snd xc))) (snd (snd xc)))
+               (combine items (idx_list prefix)),
+      (match rest with
+       | Some (name, c) => eval_all (fun x => ev x (ch l name) c) (skipn (length prefix) items)
+       | None => Some []
+       end),
+      (match s_contains s with
+       | Some c => option_map (fun rs => Some rs) (eval_all (fun x => ev x (ch l (lit "contains"%lit)) c) items)
+       | None => Some None
+       end)
+    with
+    | Some r_prefix, Some r_rest, Some r_contains =>
+        let i_prefix := seq 0 np in
+        let i_rest := match rest with Some _ => seq (length prefix) (n - length prefix) | None => [] end in
+        let matched := match r_contains with
+                       | Some rs => map fst (filter (fun ir => fst (snd ir)) (combine (seq 0 n) rs))
+                       | None => []
+                       end in
+        let ok_contains :=
+          match r_contains with
+          | Some _ =>
+              let c := Z.of_nat (length matched) in
+              Z.leb (match s_minContains s with Some m => m | None => 1%Z end) c &&
+              opt_ok (s_maxContains s) (fun m => Z.leb c m)
+          | None => true
+          end in
+        Some (all_true r_prefix && all_true r_rest && ok_contains, i_prefix ++ i_rest ++ matched)
+    | _, _, _ => None
+    end.
+
+  (** object applicators: properties, patternProperties, additionalProperties, propertyNames,
+      dependentSchemas (draft-07: schema-valued dependencies) *)
+  Definition spec_objects (e : env) (ev : efun) (j : json) (l : loc) (s : schema) (m : list (str * json))
+    : option (bool * sigma * sigma) :=
+    let d7 := e_draft7 e in
+
+    let props := olist (s_properties s) in
+    let pats := olist (s_patternProperties s) in
+    let p_props := filter (fun k => match lookup k props with Some _ => true | None => false end) (keys m) in
+    let p_pats := filter (fun k => existsb (fun pc => re_match (fst pc) k) pats) (keys m) in
+    let additional := filter (fun kv => negb (mem_str (fst kv) p_props) && negb (mem_str (fst kv) p_pats)) m in
+    let deps := if d7 then olist (s_dependencySchemas s) else olist (s_dependentSchemas s) in
+    let deps_name := if d7 then lit "dependencies"%lit else lit "dependentSchemas"%lit in
+    match
+      eval_all (fun kc => match lookup (fst kc) m with
+                          | Some v => ev v (ch_k l (lit "properties"%lit) (fst kc)) (snd kc)
+                          | None => Some (true, sig0)
+                          end) props,
+      eval_all (fun kv => option_map (fun rs => (all_true rs, sig0))
+                            (eval_all (fun pc => if re_match (fst pc) (fst kv)
+                                                 then ev (snd kv) (ch_k l (lit "patternProperties"%lit) (fst pc)) (snd pc)
+                                                 else Some (true, sig0)) pats)) m,
+      (match s_additionalProperties s with
+       | Some c => eval_all (fun kv => ev (snd kv) (ch l (lit "additionalProperties"%lit)) c) additional
+       | None => Some []
+       end),
+      (match s_propertyNames s with
+       | Some c => eval_all (fun kv => ev (JStr (fst kv)) (ch l (lit "propertyNames"%lit)) c) m
+       | None => Some []
+       end),
+      eval_all (fun kc => if has_key m (fst kc) then ev j (ch_k l deps_name (fst kc)) (snd kc) else Some (true, sig0)) deps
+    with
+    | Some r_props, Some r_pats, Some r_add, Some r_names, Some r_deps =>
+        let p_add := match s_additionalProperties s with Some _ => keys additional | None => [] end in
+        Some (all_true r_props && all_true r_pats && all_true r_add && all_true r_names && all_true r_deps,
+              mkSigma (p_props ++ p_pats ++ p_add) [], sig_of_true r_deps)
+    | _, _, _, _, _ => None
+    end.
+
+  (** unevaluatedItems / unevaluatedProperties apply to what [sig_minus] does not cover *)
+  Definition spec_uneval_items (ev : efun) (j : json) (l : loc) (s : schema) (sig_minus : sigma) : option (bool * list nat) :=
+    match j, s_unevaluatedItems s with
+    | JArr items, Some c =>
+        let un := filter (fun ix => negb (mem_nat (fst ix) (sI sig_minus))) (idx_list items) in
+        option_map (fun rs => (all_true rs, map fst un))
+                   (eval_all (fun ix => ev (snd ix) (ch l (lit "unevaluatedItems"%lit)) c) un)
+    | _, _ => Some (true, [])
+    end.
+  Definition spec_uneval_props (ev : efun) (j : json) (l : loc) (s : schema) (sig_minus : sigma) : option (bool * list str) :=
+    match j, s_unevaluatedProperties s with
+    | JObj m, Some c =>
+        let un := filter (fun kv => negb (mem_str (fst kv) (sP sig_minus))) m in
+        option_map (fun rs => (all_true rs, keys un))
+                   (eval_all (fun kv => ev (snd kv) (ch l (lit "unevaluatedProperties"%lit)) c) un)
+    | _, _ => Some (true, [])
+    end.
 
   (** one schema object, given the evaluator [ev] for subschemas (which already knows
       the extended dynamic scope [C']) *)
@@ -180,11 +284,13 @@ Section Spec.
            | Some i =>
                match ri_dynref i with
                | Some t0 =>
-                   let t := match ri_dynanchor i with
-                            | [] => t0
-                            | a => match scope_lookup e C' a with Some t => t | None => t0 end
-                            end in
-                   match node_at e t with Some c => eval_all (fun c => ev j t c) [c] | None => None end
+                   match (match ri_dynanchor i with
+                          | [] => Some t0
+                          | a => option_map (fun o => match o with Some t => t | None => t0 end) (scope_lookup e C' a)
+                          end) with
+                   | Some t => match node_at e t with Some c => eval_all (fun c => ev j t c) [c] | None => None end
+                   | None => None
+                   end
                | None => None
                end
            | None => None
@@ -209,46 +315,7 @@ Section Spec.
       (* arrays *)
       match
         (match j with
-         | JArr items =>
-             let n := length items in
-             let prefix := if d7 then olist (s_itemsArray s) else olist (s_prefixItems s) in
-             let prefix_name := if d7 then lit "items"%lit else lit "prefixItems"%lit in
-             let rest := if d7 then (match s_itemsArray s with
-                                     | Some _ => option_map (fun c => (lit "additionalItems"%lit, c)) (s_additionalItems s)
-                                     | None => option_map (fun c => (lit "items"%lit, c)) (s_items s)
-                                     end)
-                         else option_map (fun c => (lit "items"%lit, c)) (s_items s) in
-             let np := Nat.min (length prefix) n in
-             match
-               eval_all (fun ix => ev (snd ix) (ch_i l prefix_name (fst ix)) (nth (fst ix) prefix empty_schema))
-                        (firstn np (idx_list items)),
-               (match rest with
-                | Some (name, c) => eval_all (fun ix => ev (snd ix) (ch l name) c) (skipn (length prefix) (idx_list items))
-                | None => Some []
-                end),
-               (match s_contains s with
-                | Some c => option_map (fun rs => Some rs) (eval_all (fun ix => ev (snd ix) (ch l (lit "contains"%lit)) c) (idx_list items))
-                | None => Some None
-                end)
-             with
-             | Some r_prefix, Some r_rest, Some r_contains =>
-                 let i_prefix := seq 0 np in
-                 let i_rest := match rest with Some _ => seq (length prefix) (n - length prefix) | None => [] end in
-                 let matched := match r_contains with
-                                | Some rs => map fst (filter (fun ir => fst (snd ir)) (combine (seq 0 n) rs))
-                                | None => []
-                                end in
-                 let ok_contains :=
-                   match r_contains with
-                   | Some _ =>
-                       let c := Z.of_nat (length matched) in
-                       Z.leb (match s_minContains s with Some m => m | None => 1%Z end) c &&
-                       opt_ok (s_maxContains s) (fun m => Z.leb c m)
-                   | None => true
-                   end in
-                 Some (all_true r_prefix && all_true r_rest && ok_contains, i_prefix ++ i_rest ++ matched)
-             | _, _, _ => None
-             end
+         | JArr items => spec_arrays e ev l s items
          | _ => Some (true, [])
          end)
       with
@@ -257,52 +324,18 @@ Section Spec.
       (* objects: properties, patternProperties, additionalProperties, propertyNames, dependent schemas *)
       match
         (match j with
-         | JObj m =>
-             let props := olist (s_properties s) in
-             let pats := olist (s_patternProperties s) in
-             let p_props := filter (fun k => match lookup k props with Some _ => true | None => false end) (keys m) in
-             let p_pats := filter (fun k => existsb (fun pc => re_match (fst pc) k) pats) (keys m) in
-             let additional := filter (fun kv => negb (mem_str (fst kv) p_props) && negb (mem_str (fst kv) p_pats)) m in
-             let deps := if d7 then olist (s_dependencySchemas s) else olist (s_dependentSchemas s) in
-             let deps_name := if d7 then lit "dependencies"%lit else lit "dependentSchemas"%lit in
-             match
-               eval_all (fun kc => match lookup (fst kc) m with
-                                   | Some v => ev v (ch_k l (lit "properties"%lit) (fst kc)) (snd kc)
-                                   | None => Some (true, sig0)
-                                   end) props,
-               eval_all (fun kv => option_map (fun rs => (all_true rs, sig0))
-                                     (eval_all (fun pc => if re_match (fst pc) (fst kv)
-                                                          then ev (snd kv) (ch_k l (lit "patternProperties"%lit) (fst pc)) (snd pc)
-                                                          else Some (true, sig0)) pats)) m,
-               (match s_additionalProperties s with
-                | Some c => eval_all (fun kv => ev (snd kv) (ch l (lit "additionalProperties"%lit)) c) additional
-                | None => Some []
-                end),
-               (match s_propertyNames s with
-                | Some c => eval_all (fun kv => ev (JStr (fst kv)) (ch l (lit "propertyNames"%lit)) c) m
-                | None => Some []
-                end),
-               eval_all (fun kc => if has_key m (fst kc) then ev j (ch_k l deps_name (fst kc)) (snd kc) else Some (true, sig0)) deps
-             with
-             | Some r_props, Some r_pats, Some r_add, Some r_names, Some r_deps =>
-                 let p_add := match s_additionalProperties s with Some _ => keys additional | None => [] end in
-                 Some (all_true r_props && all_true r_pats && all_true r_add && all_true r_names && all_true r_deps,
-                       mkSigma (p_props ++ p_pats ++ p_add) [], sig_of_true r_deps)
-             | _, _, _, _, _ => None
-             end
+         | JObj m => spec_objects e ev j l s m
          | _ => Some (true, sig0, sig0)
          end)
       with
       | None => None
       | Some (ok_obj, sig_obj, sig_deps) =>
-        let ok_assert :=
-          a_type s j && a_enum s j && a_const s j && a_numbers s j && a_strings s j &&
-          a_array_counts s j && a_object_counts d7 s j in
-        let ok_logic :=
-          all_true r_ref && all_true r_dyn && all_true r_all &&
-          (match s_anyOf s with Some _ => Nat.ltb 0 (count_true r_any) | None => true end) &&
-          (match s_oneOf s with Some _ => Nat.eqb (count_true r_one) 1 | None => true end) &&
-          negb (existsb (fun r => fst r) r_not) && ok_cond in
+        let oks :=
+          [ all_true r_ref; a_type s j; a_enum s j; a_const s j; a_numbers s j; a_strings s j;
+            all_true r_dyn; all_true r_all;
+            (match s_anyOf s with Some _ => Nat.ltb 0 (count_true r_any) | None => true end);
+            (match s_oneOf s with Some _ => Nat.eqb (count_true r_one) 1 | None => true end);
+            negb (existsb (fun r => fst r) r_not); ok_cond ] in
         (* everything the other keywords of this object evaluated at this location *)
         let sig_minus :=
           sig_union (sig_of_true r_ref) (sig_union (sig_of_true r_dyn) (sig_union (sig_of_true r_all)
@@ -310,23 +343,12 @@ Section Spec.
           (sig_union (mkSigma [] i_arr) (sig_union sig_obj sig_deps))))))) in
         (* unevaluatedItems / unevaluatedProperties apply to the complement *)
         match
-          (match j, s_unevaluatedItems s with
-           | JArr items, Some c =>
-               let un := filter (fun ix => negb (existsb (Nat.eqb (fst ix)) (sI sig_minus))) (idx_list items) in
-               option_map (fun rs => (all_true rs, map fst un))
-                          (eval_all (fun ix => ev (snd ix) (ch l (lit "unevaluatedItems"%lit)) c) un)
-           | _, _ => Some (true, [])
-           end),
-          (match j, s_unevaluatedProperties s with
-           | JObj m, Some c =>
-               let un := filter (fun kv => negb (mem_str (fst kv) (sP sig_minus))) m in
-               option_map (fun rs => (all_true rs, keys un))
-                          (eval_all (fun kv => ev (snd kv) (ch l (lit "unevaluatedProperties"%lit)) c) un)
-           | _, _ => Some (true, [])
-           end)
+          spec_uneval_items ev j l s sig_minus,
+          spec_uneval_props ev j l s sig_minus
         with
         | Some (ok_ui, i_ui), Some (ok_up, p_up) =>
-            let ok := ok_assert && ok_logic && ok_arr && ok_obj && ok_ui && ok_up in
+            let ok := forallb (fun b => b)
+                        (oks ++ [ok_arr; a_array_counts s j; ok_ui; ok_obj; a_object_counts d7 s j; ok_up]) in
             Some (ok, if ok then sig_union sig_minus (mkSigma p_up i_ui) else sig0)
         | _, _ => None
         end
